@@ -211,6 +211,61 @@ fn process<C: FunctionalContribution>(c: &C, t: f64, samples: &[Vec<f64>], lim2:
         c.second_partial_derivatives(t, wd.view(), phi2.view_mut(), pd1b.view_mut(), pd2.view_mut()).is_ok()
     }))
     .unwrap_or(false);
+    // conditioning of the implementation's own f64 evaluation at these points: the largest change of every reported
+    // quantity when one input (T or one weighted density) is moved by one unit in the last place.  Where the evaluation is
+    // ill conditioned (e.g. ln of 1 + O(1e-7) in the chain term next to vacuum) the f64 result cannot be more accurate than
+    // that, whatever the formula; a wrong formula is off by O(1) relative and is unaffected by this allowance.
+    let mut n_phi = Array1::<f64>::zeros(k);
+    let mut n_pd = Array2::<f64>::zeros((nwd, k));
+    let mut n_pd2 = Array3::<f64>::zeros((nwd, nwd, k));
+    let ulp = f64::EPSILON;
+    for dir in 0..=nwd {
+        for sign in [1.0, -1.0] {
+            let mut wdp = wd.clone();
+            let mut tp = t;
+            if dir == 0 {
+                tp = t * (1.0 + sign * ulp);
+            } else {
+                wdp.row_mut(dir - 1).mapv_inplace(|x| x * (1.0 + sign * ulp));
+            }
+            let mut p1 = Array1::zeros(k);
+            let mut q1 = Array2::zeros((nwd, k));
+            let ok1 = std::panic::catch_unwind(std::panic::AssertUnwindSafe(|| {
+                c.first_partial_derivatives(tp, wdp.clone(), p1.view_mut(), q1.view_mut()).is_ok()
+            }))
+            .unwrap_or(false);
+            let mut p2 = Array1::zeros(k);
+            let mut q1b = Array2::zeros((nwd, k));
+            let mut q2 = Array3::zeros((nwd, nwd, k));
+            let ok2 = std::panic::catch_unwind(std::panic::AssertUnwindSafe(|| {
+                c.second_partial_derivatives(tp, wdp.view(), p2.view_mut(), q1b.view_mut(), q2.view_mut()).is_ok()
+            }))
+            .unwrap_or(false);
+            let upd = |n: &mut f64, a: f64, b: f64| {
+                let d = (a - b).abs();
+                if d.is_finite() && d > *n {
+                    *n = d;
+                }
+            };
+            for s in 0..k {
+                if ok1 && r1 {
+                    upd(&mut n_phi[s], p1[s], phi[s]);
+                    for a in 0..nwd {
+                        upd(&mut n_pd[[a, s]], q1[[a, s]], pd[[a, s]]);
+                    }
+                }
+                if ok2 && r2 {
+                    upd(&mut n_phi[s], p2[s], phi2[s]);
+                    for a in 0..nwd {
+                        upd(&mut n_pd[[a, s]], q1b[[a, s]], pd1b[[a, s]]);
+                        for b in 0..nwd {
+                            upd(&mut n_pd2[[a, b, s]], q2[[a, b, s]], pd2[[a, b, s]]);
+                        }
+                    }
+                }
+            }
+        }
+    }
     let f = |x: f64| if x.is_finite() { json!(x) } else { Value::Null };
     let imp = json!({
         "ok1": r1, "ok2": r2,
@@ -219,6 +274,11 @@ fn process<C: FunctionalContribution>(c: &C, t: f64, samples: &[Vec<f64>], lim2:
         "phi_hd": phi2.iter().map(|x| f(*x)).collect::<Vec<_>>(),
         "pd_hd": (0..k).map(|s| (0..nwd).map(|a| f(pd1b[[a, s]])).collect::<Vec<_>>()).collect::<Vec<_>>(),
         "pd2": (0..k).map(|s| (0..nwd).map(|a| (0..nwd).map(|b| f(pd2[[a, b, s]])).collect::<Vec<_>>()).collect::<Vec<_>>()).collect::<Vec<_>>(),
+        "noise": {
+            "phi": n_phi.to_vec(),
+            "pd": (0..k).map(|s| (0..nwd).map(|a| n_pd[[a, s]]).collect::<Vec<_>>()).collect::<Vec<_>>(),
+            "pd2": (0..k).map(|s| (0..nwd).map(|a| (0..nwd).map(|b| n_pd2[[a, b, s]]).collect::<Vec<_>>()).collect::<Vec<_>>()).collect::<Vec<_>>(),
+        },
     });
     let js = json!({
         "nwd": nwd, "groups": groups, "trace_failed": failed1, "same_partition_k1_k2": same_partition,
